@@ -22,6 +22,7 @@ type Ob struct {
 	Req  []string // clauses
 	Req0 string   // one more clause, evaluated first (readability of long binding patterns)
 	Opt  bool     // Min = 0 allowed
+	Forbid bool   // every matching site is a violation (expected count zero)
 	Why  string
 }
 
@@ -183,6 +184,12 @@ func evalOb(c *Ctx, e *e1, ob Ob) {
 		if len(states) == 0 {
 			continue
 		}
+		if ob.Forbid {
+			matched++
+			c.R.Find(Finding{Rule: ob.ID, Func: fi.Name, Construct: "forbidden " + ob.Kind + " " + headOf(s.term), Pos: c.P.Position(s.pos),
+				Msg: fmt.Sprintf("`%s` in %s matches the forbidden pattern `%s`%s", s.term, fi.Name, ob.Pat, whySuffix(ob.Why)), Ctl: fi.Ctl})
+			continue
+		}
 		matched++
 		head := headOf(s.term)
 		ord[head]++
@@ -213,6 +220,10 @@ func evalOb(c *Ctx, e *e1, ob Ob) {
 	min := ob.Min
 	if min == 0 && !ob.Opt {
 		min = 1
+	}
+	if ob.Forbid {
+		c.R.Obl(Obligation{Rule: ob.ID, Func: fi.Name, Construct: "no " + ob.Kind + " " + ob.Pat, Pos: c.P.Position(fi.Pos()), Discharged: matched == 0, Nontrivial: true, Ctl: fi.Ctl})
+		return
 	}
 	if matched < min {
 		c.R.Find(Finding{Rule: "vacuity", Func: fi.Name, Construct: ob.ID + " " + ob.Kind + " " + ob.Pat, Pos: c.P.Position(fi.Pos()),
